@@ -105,7 +105,7 @@ def pendD : Bool → Nat
     entry that was reported (unless it has no entries at all) -/
 structure SkOK {V} (c : Chan V) : Prop where
   all : c.skipped = true → ∀ p d, (p, d) ∈ c.ctrl → d = Dep.skipped
-  wit : c.skipped = true → c.ctrl = [] → c.data = [] ∨ ∃ p, (p, true) ∈ c.data
+  wit : c.skipped = true → c.ctrl = [] → ∃ p, (p, true) ∈ c.data
 
 /-! ### the channel operations (all-predecessor mode) -/
 
@@ -254,7 +254,7 @@ theorem reportSkip_skOK {V} (c : Chan V) (k : Key) (h : SkOK c)
     rw [← this, hnil]; rfl
   rcases hk with hk | hk
   · rw [hkc] at hk; simp at hk
-  · exact Or.inr ⟨k, h3 hk⟩
+  · exact ⟨k, h3 hk⟩
 
 theorem reset_facts {V} (c : Chan V) :
     shapeOf c.reset = shapeOf c ∧ c.reset.skipped = c.skipped ∧
@@ -1310,14 +1310,9 @@ theorem static_bound {V} {F Cp : Key → Nat} (cm : Chans V) (rank : Key → Nat
           rw [this] at h2
           simp only [pendC] at h2; omega
         | nil =>
-          rcases ho.wit hsk hcc with hdd | ⟨p, hp⟩
-          · by_cases h0 : 0 < F n
-            · rcases hent h0 with ⟨p, d, hp⟩ | ⟨p, b, hp⟩
-              · rw [hcc] at hp; simp at hp
-              · rw [hdd] at hp; simp at hp
-            · omega
-          · have := useD p true hp
-            simp only [pendD] at this; omega
+          obtain ⟨p, hp⟩ := ho.wit hsk hcc
+          have := useD p true hp
+          simp only [pendD] at this; omega
       · have hs0 : skOf cm n = 0 := by unfold skOf; rw [hl]; simp [hsk]
         rw [hs0]
         by_cases h0 : 0 < F n
